@@ -2,7 +2,37 @@
 
 package http2_test
 
+// Client part of C11 on the h2cli harness (runner in c10cli_test.go, enforce mode).
+
 import "golang.org/x/net/internal/zzverif/vx"
 
-// placeholder until the client harness exists
-func c11cliRunParts(c *vx.Ctx) {}
+func c11cliRunParts(c *vx.Ctx) {
+	c.Rule("EV, client part: Transport with per-stream receive window 8 (stream boundary) or connection receive buffer 65535 (window 131070) pre-filled by seven 16384-byte frames (connection boundary); every event sequence of depth 1..D after the seed over {REQ (<=2 GETs), response HEADERS, DATA(stream, len = w-1 | w | w+1 relative to the monitor's current min(stream, connection) window w, and len 1, 0), application Read(n), Body.Close}; an out-of-window frame ends the sequence; oracle: DATA inside both advertised windows is never answered with FLOW_CONTROL_ERROR and is delivered to Response.Body in order (final drain); DATA beyond a window is answered with GOAWAY or RST_STREAM carrying FLOW_CONTROL_ERROR and Reads never return more than the in-window prefix")
+	small := c09cliCfg{StrWin: 8}
+	connB := c09cliCfg{ConnWin: 65535}
+	pre := "D(1,16384,0,0)"
+	seedStream := []string{"REQ(0)", "RESP(1,-1,0)"}
+	seedConn := []string{"REQ(0)", "RESP(1,-1,0)", pre, pre, pre, pre, pre, pre, pre}
+	seedConn2 := []string{"REQ(0)", "REQ(0)", "RESP(1,-1,0)", "RESP(3,-1,0)", pre, "D(3,16384,0,0)", pre, "D(3,16384,0,0)", pre, "D(3,16384,0,0)", pre}
+	d := [][3]int64{{1, 0, 0}, {0, 0, 0}}
+	rel := []int64{-1, 0, 1}
+	resp := [][2]int64{{-1, 0}}
+	aSmall := c10cliAlphabet([]int64{0}, resp, d, []int64{1, 100}, []string{"C"}, rel)
+	aConn := c10cliAlphabet(nil, nil, d, []int64{1, 100, 20000}, []string{"C"}, rel)
+	var parts []c10cliPart
+	if c.Quick() {
+		parts = []c10cliPart{
+			{"cli/win8/one-response", small, seedStream, aSmall, 5},
+			{"cli/conn131070/prefilled", connB, seedConn, aConn, 4},
+			{"cli/conn131070/prefilled-two-streams", connB, seedConn2, aConn, 3},
+		}
+	} else {
+		parts = []c10cliPart{
+			{"cli/win8/empty", small, nil, aSmall, 7},
+			{"cli/win8/one-response", small, seedStream, aSmall, 6},
+			{"cli/conn131070/prefilled", connB, seedConn, aConn, 6},
+			{"cli/conn131070/prefilled-two-streams", connB, seedConn2, aConn, 5},
+		}
+	}
+	c10cliRunPartList(c, c10sMode{id: "C11", enforce: true}, parts)
+}
